@@ -109,13 +109,16 @@ def discover(prog):
 def kinds(prog):
     """(name, value, children)"""
     al = prog.alphabet('LTL.language')
-    h = [make_hole(prog, i, 'LTL') for i in range(2)]
+    h = [make_hole(prog, i, 'LTL') for i in range(3)]
     K = []
     K.append(('true', New(al['Bool'], (Const(True),)), []))
     K.append(('false', New(al['Bool'], (Const(False),)), []))
     K.append(('atom', New(al['AtomicProposition'],
                           (Sym('apname', ('b', 'str'), ('apname',)),)), []))
     K.append(('Or', New(al['Or'], (h[0], h[1])), [h[0], h[1]]))
+    # Or is n-ary (the parser builds `a or b or c` as one node)
+    K.append(('Or3', New(al['Or'], (h[0], h[1], h[2])),
+              [h[0], h[1], h[2]]))
     K.append(('X', New(al['X'], (h[0],)), [h[0]]))
     K.append(('notX', New(al['Not'], (New(al['X'], (h[0],)),)), [h[0]]))
     K.append(('U', New(al['U'], (h[0], h[1])), [h[0], h[1]]))
@@ -599,7 +602,7 @@ def _check_atom(hooks, p, atom, kname, phi, neg, kids, al, K, state):
                 'is' if has else 'is not', 'is' if hxn else 'is not')
         return None
     asgs = _assignments(hooks, p, atom, kids)
-    if kname == 'Or':
+    if kname in ('Or', 'Or3'):
         for asg in asgs:
             want = any(asg)
             if want != has:
@@ -853,7 +856,7 @@ def rule_ltl2(prog, P):
             want.append(kids[0])
         elif kname == 'notX':
             want.append(New(al['X'], (App('LNot', kids[0]),)))
-        elif kname == 'Or':
+        elif kname in ('Or', 'Or3'):
             want.extend(kids)
         elif kname == 'U':
             want.extend(kids)
@@ -873,7 +876,7 @@ def rule_ltl2(prog, P):
                     kname, gotk, wantk,
                     '' if okres else ' and does not record the formula'),
                 expected=wantk, found=gotk))
-    floor('R-LTL-2', 'kinds', len(r.instances) + len(r.findings), 14)
+    floor('R-LTL-2', 'kinds', len(r.instances) + len(r.findings), 15)
     return r
 
 
